@@ -98,7 +98,7 @@ def design_checks(chk, tier):
     else:
         # ("mixedProducers" is model-checked with the invariants in its emission run)
         c = constants(intervals=(3, 12), retries=(0, 2), die=(0, 4), modes=ALL_MODES[:4], durations=(2, 6), notify_by=8, max_outputs=1,
-                      extkill=True, max_faults=1, shapes=("direct", "two", "earlierOnly"))
+                      extkill=True, max_faults=1, shapes=("direct",))      # the other shapes: invariants checked in the "plumbing" emission run
     r = tlc.run_tlc("Repeating", _cfg("Repeating_design_%s.cfg" % tier, c + "SPECIFICATION Spec\n" + inv), coverage=True, deadlock=False,
                     timeout=1500)
     if not r["ok"]:
